@@ -132,7 +132,10 @@ PROPS = {
         "assumptions": COMMON_ASSUME + ["Linux getsockopt(TCP_KEEPIDLE) reflects net.Dialer.KeepAlive rounded up to seconds"],
     },
     "C09": {
-        "units": [{"pkg": "./c09", "shards": 8, "shards_thorough": 16, "timeout": 900}],
+        "units": [
+            {"pkg": "./c09", "shards": 8, "shards_thorough": 16, "timeout": 900},
+            {"pkg": "./mainpkg", "run": "^TestC09", "shards": 2, "shards_thorough": 4, "timeout": 900},
+        ],
         "rule": ("real loopback sockets: tcp.Server with Proxy / SNIProxy / DynamicProxy handlers and the websocket path of HTTPProxy between a scripted client and a scripted upstream. rapid-generated tunnels: client and "
                  "upstream streams of 0 B-200 KiB (thorough 4 MiB) of random bytes, a segmentation per direction (one write, 1-16 byte writes, sizes around the 32 KiB copy buffer, arbitrary sizes, optional yields), both "
                  "directions running concurrently, close order in {upstream closes after everything arrived, client closes after everything arrived, client sends and closes, upstream sends and closes, client half-closes "
@@ -140,7 +143,7 @@ PROPS = {
                  "received exactly [PROXY line computed from the socket addresses] ++ [ClientHello] ++ client stream, client received exactly the upstream stream, SNI lookup key == server name. Non-trivial = either stream "
                  "> 32 KiB, or >=3 segments, or data in the ClientHello's segment, or a half-close. Half-close cases are a recorded known finding: excluded from the main search (counted in excluded_known) and re-confirmed "
                  "by a dedicated sub-check. Long-lived sub-check: batches of 10-16 generated tunnels of every kind run concurrently, each with one direction (or both) going quiet for 1.05-2.5 s "
-                 "before a generated segment - longer than the proxies' handshake timers - and then continuing; same byte-exact oracle."),
+                 "before a generated segment - longer than the proxies' handshake timers - and then continuing; same byte-exact oracle. Clients also connect over IPv6 (PROXY TCP6 lines). Dynamic form (mainpkg): a tunnel through a listener opened by main.go's tcp-dynamic loop does round trips while 3-10 table changes add unrelated routes (host:port http routes, other tcp ports)."),
         "technique": "rapid property test over real loopback tunnels with scripted endpoints (byte-exact stream comparison in both directions)",
         "level_text": "Generated byte streams, segmentations and close orders are pushed through fabio's TCP, SNI, dynamic and websocket tunnels on real sockets; what each end received is compared byte for byte with what the other end sent. Exploration only.",
         "level_note": "Loopback TCP with the kernel's own segmentation (TCP_NODELAY is Go's default so one write is usually one segment); 'finishes first' cases are generated so that the finishing side has no unread inbound data (otherwise the kernel itself resets the connection).",
@@ -253,7 +256,10 @@ PROPS = {
         "assumptions": COMMON_ASSUME,
     },
     "C10": {
-        "units": [{"pkg": "./c10", "shards": 8, "shards_thorough": 16, "timeout": 900}],
+        "units": [
+            {"pkg": "./c10", "shards": 8, "shards_thorough": 16, "timeout": 900},
+            {"pkg": "./mainpkg", "run": "^TestC10", "race": True, "shards": 2, "shards_thorough": 4, "timeout": 900},
+        ],
         "fuzz": [{"pkg": "./c10", "target": "FuzzC10ReadServerName", "time": "600s"}],
         "rule": ("(1) ClientHellos emitted by crypto/tls clients with rapid-generated configs (server names 1-249 bytes in any case, underscores, punycode, trailing dot, IP literal => no SNI; ALPN lists; "
                  "cipher-suite and curve subsets incl. X25519MLKEM768; min/max version 1.0-1.3; tickets on/off; resumption hellos carrying a ticket/PSK from an in-process server); (2) hellos marshalled by a harness "
@@ -263,7 +269,8 @@ PROPS = {
                  "length and accepted iff the header is a valid single-record ClientHello header; no panic anywhere; (6) edits of +-1..4/255 to one or two of the nested length fields around the name (record, handshake, "
                  "extension block, SNI extension, name list, name), with the SNI extension last, first or in the middle. The parser is always given an exact-capacity copy of the buffered bytes (a read past them panics), "
                  "and every non-empty name it returns must be the bytes of a host_name entry lying, by its own length field, inside a server_name extension (independent walker). Non-trivial = well-formed hello with >=3 extensions (distinct by bytes after the random), plus distinct "
-                 "corrupted bodies and accepted headers."),
+                 "corrupted bodies and accepted headers. Routing form: the extracted name is put to a routing table with one tcp route per (lower-cased) generator name through LookupHost: names are routed whatever their letter case; main.go's per-listener lookup function "
+                 "(lookupHostFn) is called by 2-16 goroutines at once for routed and unrouted names (-race): each call answers for its own name."),
         "technique": "rapid property tests, differential against crypto/tls on generated, built, corrupted and truncated ClientHellos; native go fuzzing (thorough)",
         "level_text": "Differential testing of fabio's ClientHello parser against the Go TLS stack over generated client configurations, harness-built hellos and corruptions, plus an exhaustive truncation sweep per hello and header-space sampling of the buffer-size function. Exploration only.",
         "level_note": "Single-record hellos only (fabio documents that fragmentation is unsupported); 'well-formed' = accepted by crypto/tls's parser far enough to call GetConfigForClient.",
